@@ -285,8 +285,8 @@ theorem sim_probe (s : St) (i : Nat) (c : Bool) (s' : St) (ms : C17St) (hR : Rel
     (hs : step s (.probe i c) = some s') :
     ∃ ms', monC17.step ms (.probe i c) = some ms' ∧ RelC17 s' ms' := by
   simp only [step] at hs; split at hs <;> simp at hs
-  rename_i ha
-  obtain ⟨hc, rfl⟩ := hs
+  rename_i w ha
+  obtain ⟨⟨hent, hc⟩, rfl⟩ := hs
   have hni := not_idle_of_ws hR.inv ha
   have ht := hR.tbl; simp only [hni] at ht
   have hv := view_map_get ha
@@ -300,7 +300,8 @@ theorem sim_probe (s : St) (i : Nat) (c : Bool) (s' : St) (ms : C17St) (hR : Rel
     simp only [hpc] at hp
     have : s.subC = true := hp.2.2 (by intro e; rw [e] at ha; simp at ha)
     simp [hc, St.subCancelled, this]
-  simp [monC17, ht, hv, view]
+  have hwe : (view w).wasEntered = true := by cases w <;> simp [WS.entered] at hent <;> rfl
+  simp [monC17, ht, hv, hwe]
   exact hret
 
 theorem sim_ret (s : St) (r : Res) (s' : St) (ms : C17St) (hR : RelC17 s ms)
